@@ -33,12 +33,35 @@ def pregen():
     lift.generate_all(REPO, GEN)
 
 
+def split_per_harness(out):
+    """cargo-kani -j interleaves threads: a `Thread N:` prefix opens a block that belongs to thread N."""
+    segs = {}
+    order = []
+    cur_thread, cur_of_thread = None, {}
+    cur_name = None
+    for line in out.split("\n"):
+        m = re.match(r"^Thread (\d+): ?(.*)$", line)
+        body = line
+        if m:
+            cur_thread, body = m.group(1), m.group(2)
+            cur_name = cur_of_thread.get(cur_thread)
+        hm = re.match(r"^Checking harness ([\w:]+)\.\.\.", body)
+        if hm:
+            cur_name = hm.group(1)
+            if cur_thread is not None:
+                cur_of_thread[cur_thread] = cur_name
+            if cur_name not in segs:
+                segs[cur_name] = []
+                order.append(cur_name)
+        if cur_name is not None:
+            segs[cur_name].append(body)
+    return [(n, "\n".join(segs[n])) for n in order]
+
+
 def parse_output(out):
     """Split cargo-kani output per harness and summarise."""
     res = {}
-    marks = [(m.start(), m.group(1)) for m in HARNESS_RE.finditer(out)]
-    for i, (pos, name) in enumerate(marks):
-        seg = out[pos: marks[i + 1][0] if i + 1 < len(marks) else len(out)]
+    for (name, seg) in split_per_harness(out):
         short = name.split("::")[-1]
         r = {"harness": name, "tail": seg[-8000:]}
         m = re.search(r"^VERIFICATION:- (SUCCESSFUL|FAILED)", seg, re.M)
@@ -130,6 +153,9 @@ def run_harnesses(obls, tier="quick"):
                 if pr["dead_covers"]:
                     r["status"] = "undecided"
                     r["reason"] = "vacuity guard: cover not satisfiable: " + "; ".join(c["description"] for c in pr["dead_covers"])
+                elif pr.get("covers") and pr["covers"]["satisfied"] < pr["covers"]["total"]:
+                    r["status"] = "undecided"
+                    r["reason"] = f"vacuity guard: only {pr['covers']['satisfied']} of {pr['covers']['total']} cover properties satisfied"
                 elif o.get("expect_stub") and not any(o["expect_stub"] in s for s in pr["stubs"]):
                     r["status"] = "undecided"
                     r["reason"] = f"expected stub {o['expect_stub']} not confirmed by Kani"
